@@ -1,6 +1,7 @@
 """C18 Identity, equality and serialization of graphs are structural and stable - structural clauses."""
 import ast
 
+from ..rules.match import FnText
 from ..model import AnalysisError, norm, walk_no_nested
 from ..cfg import build_cfg
 from ..flow import Slice
@@ -73,7 +74,7 @@ def hash_completeness(ctx, rule='A8'):
                    f'the {comp} enter {meth} in sorted order (set iteration order differs between processes)', '')
     # fingerprint covers every field of a constraint
     fp = ctx.fn(f'{DSG}.fingerprint')
-    t = ' '.join(norm(s) for s in fp.body)
+    t = FnText(ctx, fp)
     cc = ctx.prog.cls(f'{CCON}:ChoiceConstraint')
     fields = [s.target.id for s in cc.node.body if isinstance(s, ast.AnnAssign) and isinstance(s.target, ast.Name)]
     for f in fields:
@@ -103,12 +104,12 @@ def node_identity(ctx, rule='A8n'):
     ctx.ob(rule, fkey(e, rule, 'eq-consistent-with-hash'), ok, e.where,
            'node equality is id equality (consistent with __hash__)', short(returns_of(e)[0]))
     u = ctx.fn(f'{NODES}:DSGNode.update_node_id')
-    t = ' '.join(norm(s) for s in u.body)
+    t = FnText(ctx, u)
     ok = 'self._id = hash(self._obj_id or id(self))' in t
     ctx.ob(rule, fkey(u, rule, 'id-from-given-or-object-id'), ok, u.where,
            'the id is the hash of the given object id, or of the object identity when none was given', t)
     c = ctx.fn(f'{NODES}:DSGNode.copy_node')
-    t = ' '.join(norm(s) for s in c.body)
+    t = FnText(ctx, c)
     ok = 'node_copy = copy.copy(self)' in t and 'node_copy.update_node_id()' in t
     ctx.ob(rule, fkey(c, rule, 'copy-node-refreshes-id'), ok, c.where,
            'a copied node gets its id refreshed (it is a different node unless it carries an explicit id)', '')
@@ -128,13 +129,13 @@ def node_identity(ctx, rule='A8n'):
 
 def copy_preserves(ctx, rule='A8c'):
     fn = ctx.fn(f'{DSG}.get_for_adjusted')
-    t = ' '.join(norm(s) for s in fn.body)
+    t = FnText(ctx, fn)
     ok = 'dec_con_map_copy = self._choice_constraints.copy()' in t or 'list(self._choice_constraints)' in t
     ctx.ob(rule, fkey(fn, rule, 'constraint-objects-kept'), ok and '_choice_con_map=dec_con_map_copy' in t, fn.where,
            'a derived graph receives the same constraint objects (constraints hash by identity, so the copy hashes '
            'equal) in a new list', '')
     b = ctx.fn(f'{BASIC}._mod_graph_adjust_kwargs')
-    ok = "kwargs['start_nodes'] = self._start_nodes" in ' '.join(norm(s) for s in b.body)
+    ok = "kwargs['start_nodes'] = self._start_nodes" in FnText(ctx, b)
     ctx.ob(rule, fkey(b, rule, 'start-nodes-kept'), ok, b.where, 'a derived graph keeps the start nodes', '')
     c = ctx.fn(f'{DSG}.copy')
     ok = norm(returns_of(c)[0].value) == 'self.get_for_adjusted()'
@@ -159,7 +160,7 @@ def ordering_keys(ctx, rule='A18'):
         ctx.ob(rule, fkey(fn, rule, 'ordering-key-stable'), not bad, fn.where,
                'the ordering key that fixes design-variable order uses names / decision ids / option ids - never '
                'builtin hash() or id(), which differ between processes', f'uses {bad}' if bad else
-               ' '.join(norm(s) for s in fn.body)[:120])
+               FnText(ctx, fn)[:120])
     fn = ctx.fn(f'{DSG}.ordered_choice_nodes')
     ok = norm(returns_of(fn)[0].value) == f'sorted({fn.params[1]}, key=self._choice_sort_key)'
     ctx.ob(rule, fkey(fn, rule, 'choices-sorted-by-key'), ok, fn.where,
@@ -168,13 +169,13 @@ def ordering_keys(ctx, rule='A18'):
 
 def exports(ctx, rule='A8x'):
     fn = ctx.fn(f'{DSG}._get_graph_for_export')
-    t = ' '.join(norm(s) for s in fn.body)
+    t = FnText(ctx, fn)
     ok = 'graph.add_edges_from(self._graph.edges(data=True))' in t and \
         'graph.add_nodes_from(self._graph.nodes(data=True))' in t
     ctx.ob(rule, fkey(fn, rule, 'export-graph-has-all'), ok, fn.where,
            'the graph handed to the exporters contains every edge and every node (isolated nodes included)', '')
     g = ctx.fn('adsg_core.graph.export:export_gml')
-    ok = 'nx.write_gml(graph, fp, stringizer=str)' in ' '.join(norm(s) for s in g.body)
+    ok = 'nx.write_gml(graph, fp, stringizer=str)' in FnText(ctx, g)
     ctx.ob(rule, fkey(g, rule, 'gml-writes-whole-graph'), ok, g.where, 'GML export writes the whole graph', '')
 
 
